@@ -284,3 +284,35 @@ def kind(t, st, a):
     if v < 0:
         return (REDUCE, -v)
     return (ACCEPT,)
+
+
+def lr_parse(t, terminals):
+    """Run the LR automaton of the reconstructed tables on a sequence of terminal names (as sly's driver does, with defaulted states).
+    -> (accepted, [numbers of the productions reduced, in order])"""
+    toks = list(terminals) + ['$end']
+    stack = [0]
+    reds = []
+    i = 0
+    for _ in range(20000):
+        st = stack[-1]
+        if st in t.defaulted:
+            act = (REDUCE, -t.defaulted[st])
+        else:
+            act = kind(t, st, toks[i])
+        if act is None or act[0] == ERROR:
+            return False, reds
+        if act[0] == SHIFT:
+            stack.append(act[1])
+            i += 1
+        elif act[0] == REDUCE:
+            pr = t.P[act[1]]
+            if pr.rhs:
+                del stack[-len(pr.rhs):]
+            nxt = t.goto(stack[-1], pr.name)
+            if nxt is None:
+                return False, reds
+            stack.append(nxt)
+            reds.append(act[1])
+        else:
+            return True, reds
+    return False, reds
